@@ -286,16 +286,41 @@ def _input_wrappers(ck, repo):
     r = FuncView(wo).returns()
     ck.ob("inputs.null_coercer_wrapper returns the wrapper", len(r) == 1 and unparse(r[0].value) == "wrapper", wo, wo.node, construct="nullwrap:return")
     sc = repo.func(INP + "scalar_coercer.py", "scalar_coercer")
-    sv = FuncView(sc)
+    from ..q import inlined_view as _iv
+    sv = _iv(repo, sc)   # conditional expressions become paths
     c = sv.maybe_call("coerce_input")
     ok = c is not None and [unparse(a) for a in c.args] == [sc.positional_params[2]] and unparse(c.func.value) == sc.positional_params[4]
     ck.ob("inputs.scalar_coercer delegates to the scalar's coerce_input(value)", ok, sc, c or sc.node, construct="scalar:delegate")
-    rets = sv.returns()
-    good = [x for x in rets if unparse(x.value) == "CoercionResult(value=coerced_value)"]
-    bad = [x for x in rets if unparse(x.value).startswith("CoercionResult(errors=[coercion_error(")]
-    ok = len(good) == 1 and len(bad) == 2 and len(rets) == 3 and any(("is_invalid_value(coerced_value)", "T") in sv.conditions(x) for x in bad) and \
-        any(sv.enclosing(x, (ast.ExceptHandler,)) is not None for x in bad) and ("is_invalid_value(coerced_value)", "T") not in sv.conditions(good[0])
-    ck.ob("inputs.scalar_coercer: valid -> the coerced value; invalid marker or exception -> an error result (never None)", ok, sc, sc.node, construct="scalar:returns")
+    # path rows (the scalar's own failure followed into the handler), operands resolved: whatever the exits look like
+    from ..pathtab import outcome_rows as _rows
+    call_txt = unparse(c) if c is not None else "?"
+    rows_ = _rows(sv, raising_stmts=[sv.stmt_of(c)] if c is not None else [])
+    kinds = set()
+    ok = bool(rows_)
+    for r_ in rows_:
+        ret_t = unparse(r_["ret"]) if r_["ret"] is not None else None
+        invalid = None
+        for t_, o_ in r_["conds"]:
+            tt = t_.replace(" ", "")
+            if tt in (f"is_invalid_value({call_txt})".replace(" ", ""), f"{call_txt}isUNDEFINED_VALUE".replace(" ", "")):
+                invalid = o_
+            if tt == f"{call_txt}isnotUNDEFINED_VALUE".replace(" ", ""):
+                invalid = "F" if o_ == "T" else "T"
+        if r_["exit"] != "return_exit" or ret_t is None:
+            ok = False
+        elif r_["handlers"]:
+            kinds.add("raised")
+            ok = ok and ret_t.startswith("CoercionResult(errors=[coercion_error(")
+        elif invalid == "T":
+            kinds.add("invalid")
+            ok = ok and ret_t.startswith("CoercionResult(errors=[coercion_error(")
+        elif invalid == "F":
+            kinds.add("valid")
+            ok = ok and ret_t == f"CoercionResult(value={call_txt})"
+        else:
+            ok = False
+    ck.ob("inputs.scalar_coercer: valid -> the coerced value; invalid marker or exception -> an error result (never None)", ok and kinds == {"raised", "invalid", "valid"}, sc, sc.node,
+          construct="scalar:returns", detail=str(sorted(kinds)))
     ec = repo.func(INP + "enum_coercer.py", "enum_coercer")
     ev = FuncView(ec)
     gvv = ev.maybe_call("get_value")
